@@ -4,6 +4,8 @@ import (
 	"fmt"
 	"go/ast"
 	"go/token"
+	"os"
+	"path/filepath"
 	"strings"
 )
 
@@ -83,6 +85,13 @@ func genRegistryIndex(b *leanFile) {
 	b.P("/-- gate order of `TrustedVerifier.VerifyIndex`: (callee, guarded, condition, deferred). -/")
 	b.P("def verifyIndexOrder : List (String × Bool × String × Bool) := %s", leanCallFacts(order))
 	b.P("def verifyIndexOrderCallees : List String := %s", leanCallees(order))
+	b.P("")
+	// flock contract (Model/FlockFile.lean): mutual exclusion through flock on a fixed PATH holds only while nobody unlinks or
+	// replaces the lock file. Every call in pkg/registry (all non-test files, function literals included) that removes or renames
+	// a path whose expression mentions a lock (`…LockPath(…)`, `lock.Path()`, a `*flock.Flock` value, "….lock"), and every use of
+	// `(*flock.Flock).Path()`.
+	b.P("/-- calls in pkg/registry that unlink / rename a lock file or read a lock's path: (file, function, call). -/")
+	b.P("def lockFileUnlinks : List (String × String × String) := %s", leanTriples(lockFileUnlinks("pkg/registry")))
 	b.P("")
 	// arguments of CheckRollback and the value persisted as the new high-water mark
 	var crArgs []string
@@ -469,4 +478,58 @@ func genAtomicfile(b *leanFile) {
 	// the last statement returns nil
 	last := wf.Body.List[len(wf.Body.List)-1]
 	b.P("def writeFileLast : String := %s", leanStr(src(last)))
+}
+
+// lockFileUnlinks scans a package directory for os.Remove / os.RemoveAll / os.Rename calls on a lock path and for uses of
+// (*flock.Flock).Path().
+func lockFileUnlinks(relDir string) [][3]string {
+	dir := filepath.Join(repo, relDir)
+	ents, err := os.ReadDir(dir)
+	if err != nil {
+		panic(fmt.Sprintf("read dir %s: %v", relDir, err))
+	}
+	var out [][3]string
+	for _, e := range ents {
+		n := e.Name()
+		if e.IsDir() || !strings.HasSuffix(n, ".go") || strings.HasSuffix(n, "_test.go") || strings.HasPrefix(n, "zz_verif") {
+			continue
+		}
+		f := parse(filepath.Join(relDir, n))
+		for _, d := range f.Decls {
+			fd, ok := d.(*ast.FuncDecl)
+			if !ok || fd.Body == nil {
+				continue
+			}
+			ast.Inspect(fd.Body, func(nd ast.Node) bool {
+				c, ok := nd.(*ast.CallExpr)
+				if !ok {
+					return true
+				}
+				full, short := calleeName(c)
+				text := src(c)
+				lower := strings.ToLower(text)
+				switch {
+				case full == "os.Remove" || full == "os.RemoveAll" || full == "os.Rename" || full == "syscall.Unlink" || full == "unix.Unlink":
+					if strings.Contains(lower, "lock") {
+						out = append(out, [3]string{n, fd.Name.Name, text})
+					}
+				case short == "Path" && len(c.Args) == 0 && strings.Contains(strings.ToLower(full), "lock"):
+					out = append(out, [3]string{n, fd.Name.Name, text})
+				}
+				return true
+			})
+		}
+	}
+	return out
+}
+
+func leanTriples(ts [][3]string) string {
+	if len(ts) == 0 {
+		return "[]"
+	}
+	var parts []string
+	for _, t := range ts {
+		parts = append(parts, fmt.Sprintf("(%q, %q, %q)", t[0], t[1], t[2]))
+	}
+	return "[" + strings.Join(parts, ", ") + "]"
 }
